@@ -39,6 +39,7 @@ import (
 	"oras.land/oras-go/v2/internal/graph"
 	"oras.land/oras-go/v2/internal/manifestutil"
 	"oras.land/oras-go/v2/internal/resolver"
+	"oras.land/oras-go/v2/internal/verifhook"
 	"oras.land/oras-go/v2/registry"
 )
 
@@ -569,6 +570,7 @@ func (s *Store) GC(ctx context.Context) error {
 				// skip irrelevant content
 				continue
 			}
+			verifhook.Point("oci.GC.sweep")
 			if !reachableNodes.Contains(blobDigest) {
 				// remove the blob from storage if it does not exist in Store
 				err = os.Remove(path.Join(algPath, dgst))
